@@ -113,6 +113,15 @@ let handle line =
   | ["brender"; np; dp] ->
       bres_str hb (M.b_render M.gen_tables !loaded (nat_of_int 64) (bh np) (bh dp) !bstate)
   | ["brequires"] -> lst (!bstate).M.b_reqs
+  | ["bload"; np; dp; text] ->
+      (match M.parse M.gen_tables (bh text) with
+       | M.Accept ns ->
+           let (rq, fs) = M.from_parser_result (bh np) (bh dp) ns in
+           let fstr = match fs with [] -> "-" | _ -> String.concat " " (List.map (fun f ->
+             Printf.sprintf "%s:%s:%d" (hb f.M.lf_name) (hb f.M.lf_desc) (if f.M.lf_enabled then 1 else 0)) fs) in
+           lst rq ^ " | " ^ fstr ^ " | " ^
+           bres_str hb (M.reload_text M.gen_tables (nat_of_int 64) (bh np) (bh dp) (bh text))
+       | _ -> "reject")
   | ["get"; n] -> ret_str (M.op_get (bh n) !state)
   | ["isdisabled"; n] -> ret_str (M.op_is_disabled (bh n) !state)
   | ["fquote"; v] -> hb (M.fquote (bh v))
